@@ -80,11 +80,26 @@ def bounds(tier, seed):
     )
 
 
+def _big(spec):
+    n, m, sd = spec
+    rng = np.random.default_rng([int(sd), n, m, 1111])
+    return np.round(rng.standard_normal((n, m)) * np.array([1.0, 0.5, 2.0, 0.25][:m]) * 256) / 256 + np.arange(m) * 1.5
+
+
 def groups(tier, seed):
-    return [dict(label=l, X=X, tier=tier) for l, X in _datas(tier, seed)]
+    out = [dict(label=l, X=X, tier=tier) for l, X in _datas(tier, seed)]
+    # many rows (block-wise / chunked accumulation only exists at this size): 3000 x 3
+    out.append(dict(label="big3000x3", big=[3000, 3, seed], tier=tier))
+    return out
 
 
 def cases(group):
+    if "big" in group:
+        n = group["big"][0]
+        for flags in FLAGS:
+            for w in _weights(n, group["tier"], False):
+                yield dict(big=group["big"], with_mean=flags[0], with_std=flags[1], column_wise=flags[2], w=w, rtol=0.0, atol=1e-12)
+        return
     X = group["X"]
     n = len(X)
     full = group["label"] == "L4x2"
@@ -109,7 +124,7 @@ def check(case):
     from skmatter.preprocessing import StandardFlexibleScaler
 
     r = R()
-    X = np.array(case["X"], float)
+    X = _big(case["big"]) if "big" in case else np.array(case["X"], float)
     n, m = X.shape
     w = case["w"]
     wm, ws, cw, rtol, atol = case["with_mean"], case["with_std"], case["column_wise"], case["rtol"], case["atol"]
